@@ -693,6 +693,14 @@ def has_side_effect(node: ast.AST, safe_callable_whitelist: Collection[str] = fr
     if isinstance(node, (ast.DictComp)) and has_side_effect(node.value, safe_callable_whitelist):
         return True
 
+    if isinstance(node, (ast.DictComp)) and has_side_effect(node.key, safe_callable_whitelist):
+        return True
+
+    if isinstance(node, (ast.SetComp, ast.ListComp, ast.GeneratorExp)) and has_side_effect(
+        node.elt, safe_callable_whitelist
+    ):
+        return True
+
     if isinstance(node, (ast.SetComp, ast.ListComp, ast.GeneratorExp, ast.DictComp)):
         return any(has_side_effect(item, safe_callable_whitelist) for item in node.generators)
 
@@ -1065,7 +1073,7 @@ def is_blocking(node: ast.AST, parent_type: ast.AST = None) -> bool:
         try:
             test_value = literal_value(node.test)
         except ValueError:
-            pass
+            return False  # The loop may run zero times, whatever its body does
         else:
             if not test_value:
                 return False
